@@ -53,7 +53,7 @@ def distance(h, n=2):
     lam, mu = _scales(h, 'lam'), _scales(h, 'mu')
     d0 = hyperbolic.Point(_hom(x)).distance(hyperbolic.Point(_hom(y)))
     d1 = hyperbolic.Point(lam * _hom(x)).distance(hyperbolic.Point(mu * _hom(y)))
-    E = (lambda d: d.expo()) if h.is_sym() else np.exp
+    E = h.expo
     h.eq("distance", E(d1), E(d0))
 
 
